@@ -380,8 +380,23 @@ def check_string_helpers(repo):
         got = norm_ws(find_block(src, hdr))
         if got != want: raise TranslateError('text helper %s is no longer the source Wire/Layout.v transcribes: %s' % (name, got[:300]))
 
+# the two helpers behind every scaled time field (Wire/Layout.v ADur: write = whole milliseconds / SCALE, refused when the quotient does not
+# fit the field's integer type; read = wire value * SCALE milliseconds, computed in 64 bits)
+DURATION_HELPERS = {
+ 'binrw_write_duration': (r'pub fn binrw_write_duration<[^{]*?>\(\s*input: &Duration,?\s*\)\s*->\s*binrw::BinResult<\(\)>\s*\{',
+   'let pos = writer.stream_position()?; match T::try_from(input.as_millis() / SCALE) { Ok(v) => v.write_options(writer, endian, ()), Err(_) => Err(BinError::AssertFail { pos, message: "Could not convert to duration without loss".into(), }), }'),
+ 'binrw_parse_duration': (r'pub fn binrw_parse_duration<T: TryInto<u64> \+ for<\'a> BinRead<Args<\'a> = \(\)>, const SCALE: u64>\(\s*\)\s*->\s*binrw::BinResult<Duration>\s*\{',
+   'let pos = reader.stream_position()?; let res = T::read_options(reader, endian, ())?; match TryInto::<u64>::try_into(res) { Ok(v) => Ok(Duration::from_millis(v * SCALE)), Err(_) => Err(BinError::AssertFail { pos, message: "Could not convert to duration without loss".into(), }), }'),
+}
+def check_duration_helpers(repo):
+    src = strip_comments(load(repo + '/insim_core/src/duration.rs'))
+    for name, (hdr, want) in DURATION_HELPERS.items():
+        got = norm_ws(find_block(src, hdr))
+        if got != want: raise TranslateError('duration helper %s is no longer the source Wire/Layout.v transcribes: %s' % (name, got[:300]))
+
 def generate(repo):
     check_string_helpers(repo)
+    check_duration_helpers(repo)
     src = Src(repo); g = Gen(src)
     pk = load(repo + '/insim/src/packet.rs')
     body = find_block(pk, r'pub enum Packet\s*\{')
